@@ -28,39 +28,8 @@ theorem C04_place {g : Graph} (hg : g.WF) {cfg : Cfg} {s : St} (h : Reach g cfg 
 
 /-- Only nodes of the graph handed to the engine are ever run. -/
 theorem C04_only_graph_nodes {g : Graph} (hg : g.WF) {cfg : Cfg} {s : St} (h : Reach g cfg s) :
-    ∀ x ∈ s.begun, x ∈ g.nodes := by
-  intro x hx
-  have hi := inv_reach hg h
-  have h1 := hi.begunCnt x hx
-  have h2 := hi.place x
-  have h3 : 0 < s.enq.count x := by omega
-  have h4 : x ∈ s.enq := List.count_pos_iff.mp h3
-  clear h1 h2 h3 hx
-  induction h with
-  | init => simp [init, sources] at h4; exact h4.1
-  | step l hr hs ih =>
-    have hi' := inv_reach hg hr
-    cases l <;> simp only [step?] at hs
-    case release w y =>
-      split at hs
-      · next x' todo hw =>
-        split at hs
-        · next hyt =>
-          cases hs
-          simp only at h4
-          split at h4
-          · simp only [List.mem_append, List.mem_singleton] at h4
-            rcases h4 with h4 | h4
-            · exact ih hi' h4
-            · subst h4
-              have := (hi'.relsing x' todo (List.mem_of_getElem? hw)).2.2.1 x hyt
-              exact (hg.succsNodes _ _ this.1).2
-          · exact ih hi' h4
-        · cases hs
-      · cases hs
-    all_goals
-      repeat' split at hs
-      all_goals first | (cases hs; exact ih hi' h4) | cases hs
+    ∀ x ∈ s.begun, x ∈ g.nodes :=
+  begun_in_nodes hg h
 
 /-- The graph is acyclic: some rank strictly increases along every edge (what `assert_acyclic` guarantees, C07). -/
 def Graph.Ranked (g : Graph) (rank : Nat → Nat) : Prop := ∀ x y, y ∈ g.succs x → rank x < rank y
